@@ -336,6 +336,18 @@ theorem tile_is_region_of_matrix {α} (z : α) (M : Img α) (lut : List LutRow) 
       ∀ a b, 0 ≤ a → a < min (ro + tr) (R + 1) - ro → 0 ≤ b → b < min (co + tc) (C + 1) - co → out a b = fr a b :=
   tile_equals_region z M lut frames R C th tw tr tc ro co ht hw hr hc hg hcut h1 h2 h3 h4 full am
 
+/-- **One notion of "TILED_FULL".**  The library decides in four places, in two modules and four spellings (`hasattr … and ==`,
+`get(…, '') !=`, `not hasattr … or !=`, `get(…, "") ==`), whether positions are implied by frame order: when `_Image` builds its frame
+look-up, in the missing-frame test of a region read, when `iter_tiled_full_frame_data` accepts a dataset, and when
+`_get_spatial_information` takes a frame's position from that iteration.  Each is regenerated as its truth table (T7l, T7m: the
+source expression evaluated on datasets without the attribute / with `"TILED_FULL"` / with another value); all four are the same
+predicate: the attribute is present and equals `"TILED_FULL"`.  (If they differed, the frame table, the region reads and the
+per-frame transformers would describe different tilings of one file.) -/
+theorem tiled_full_decisions_agree (org : Option String) :
+    (isTiledFullLut org = true ↔ org = some "TILED_FULL") ∧ isTiledFullRegionRead org = isTiledFullLut org ∧
+    isTiledFullIter org = isTiledFullLut org ∧ isTiledFullSpatialInfo org = isTiledFullLut org :=
+  tiledFull_decisions org
+
 /-- **Bridge (z origin of `compute_plane_position_tiled_full`, T7k).**  The model computes the z origin of the tile with the
 REGENERATED expression: `float(slice_index - 1) * spacing_between_slices` when both are given, 0 when neither is, TypeError when
 exactly one is (the `sum(...) not in (0, 2)` test is pinned and translated by its meaning). -/
@@ -439,6 +451,7 @@ channel 0, plane 1 (the second), tile row 1, tile column 1 -/
 example : (10 / 3 / 2 / 2 = 0) ∧ (10 / 3 / 2 % 2 = 1) ∧ (10 / 3 % 2 = 1) ∧ (10 % 3 = 1) := by decide
 example : planePositionZ (some 3) (some (1/2)) = .ok 1 ∧ planePositionZ (some 3) none = .error .type := by
   constructor <;> simp [planePositionZ]
+example : isTiledFullLut (some "TILED_FULL") = true ∧ isTiledFullIter (some "TILED_SPARSE") = false ∧ isTiledFullSpatialInfo none = false := by decide
 example : (⟨0, 0, 0, 1, 0, 0, 0, 1, 0, 1, 1⟩ : Geo).nondegenerate := by
   unfold Geo.nondegenerate; norm_num
 
